@@ -168,6 +168,7 @@ type syncConfig struct {
 	script     map[string][]string
 	concurrent int
 	events     []string // trigger | extend | reorg
+	confirmErr []int    // heights at which the processor's ConfirmTx fails once (transient collaborator error)
 	forkAt     int
 	forkLen    int
 }
@@ -184,6 +185,9 @@ func (c syncConfig) name() string {
 	}
 	if c.concurrent > 1 {
 		s += fmt.Sprintf("-conc%d", c.concurrent)
+	}
+	if len(c.confirmErr) > 0 {
+		s += fmt.Sprintf("-confirm-error-at%v", c.confirmErr)
 	}
 	if len(c.events) > 0 {
 		s += "+" + strings.Join(c.events, "+")
@@ -213,7 +217,10 @@ func syncScenario(c syncConfig) func() func() []string {
 				panic(err)
 			}
 		}
-		proc := &recProc{}
+		proc := &recProc{failConfirmAt: map[int]int{}}
+		for _, h := range c.confirmErr {
+			proc.failConfirmAt[h]++
+		}
 		store := &recStore{blocks: map[bitcoin.Hash32]bool{}}
 		for _, h := range c.processed {
 			store.blocks[chain.main[h-1].hash] = true
@@ -419,6 +426,9 @@ func c05Scenarios(thorough bool) []*scenario {
 	// the 10 s orphan check must abandon it, and a later round continues on the new best chain
 	add(syncConfig{length: 3, start: 1, script: map[string][]string{"a2": {"silent", "silent"}}, events: []string{"reorg"}, forkAt: 1, forkLen: 3}, 0)
 	add(syncConfig{length: 4, start: 1, processed: []int{1}, script: map[string][]string{"a3": {"silent", "silent"}}, events: []string{"reorg"}, forkAt: 2, forkLen: 3}, 0)
+	// a transient error of the transaction processor while a block is being confirmed: the block is
+	// asked for again, and is not on record as processed in the meantime
+	add(syncConfig{length: 3, start: 1, confirmErr: []int{2}}, 0)
 	// two sources for one block: the first stalls mid-download, the second (asked after the block
 	// request delay) finishes first; the stalled one must not get the block processed a second time
 	add(syncConfig{length: 2, start: 1, concurrent: 2, script: map[string][]string{"a1": {"stall"}}}, 0)
